@@ -94,6 +94,9 @@ def modelObs (st : State) (ws : List String) : Option (State × String) :=
     let (st', os) := step st (.wake (nat! b) (nat! g))
     some (st', if os.contains .ignored then "IGNORED" else modelV os)
   | ["elapse", b] => some ((step st (.elapse (nat! b))).1, "-")
+  -- which free workers are momentarily away from their job channels is not a dispatcher event: the blocking
+  -- offer (`offerLoop`) does not depend on it
+  | "notrecv" :: _ => some (st, "-")
   | ["exit", p] =>
     let (st', os) := step st (.exit (nat! p))
     some (st', if os.contains .ignored then "IGNORED" else "-")
@@ -122,8 +125,12 @@ def obsOf1 (ws : List String) (obs : String) : List Obs :=
   | ["accept", p] =>
     [.dispatched (nat! p) (nat! ((field ows "j").getD "0")) (parseReq ((field ows "r").getD "0.0"))]
   | ["result", p, e] =>
-    .result (nat! p) (nat! ((field ows "j").getD "0")) ((parseErr e).getD .other) :: vs ++ [.resultDone]
+    .result (nat! p) (nat! ((field ows "j").getD "0")) ((parseErr e).getD .other) :: vs ++ [.resultDone] ++
+      (match field ows "sc" with
+       | some sc => [Obs.scoreAfter (nat! p) (nat! sc)]
+       | none => [])
   | ["exit", p] => [.exited (nat! p)]
+  | "notrecv" :: ps => [.notReceiving (ps.map (fun x => nat! x))]
   | ["order"] => [.order (parseOrder obs)]
   | ["quit"] => .quit :: vs
   | ["final"] =>
@@ -159,6 +166,8 @@ def realObs (ws : List String) (obs : String) : Option RObs :=
     let kind := (field ws "kind").getD "later"
     some (.batch (nat! i) kind (if v == "HANG" then none else some (parseVerdict v)) fin n
       (nat! ((field ows "gap").getD "0")) (nat! ((field ows "pt").getD "0")))
+  | "rrank" :: what :: _ =>
+    some (.pick what (nat! ((field ws "okA").getD "0")) (nat! ((field ws "okB").getD "0")) ((field ows "to").getD "none"))
   | ["rstop"] => some (.stop (obs == "ok"))
   | ["rpeer"] => some .peerNotTaken
   | ["rfinal"] =>
@@ -180,8 +189,54 @@ def runReal (c : CaseIn) : Array String := Id.run do
         out := out.push s!"ORACLE-FAIL C12 case {c.num} line {ln}: shape={shape} {msg} (at: {op} => {obs})"
   return out
 
+/-- `n` consecutive addresses from `first` on are added (a burst of short-lived peers) -/
+def churnOps (first : Nat) : Nat → List RankOp
+  | 0 => []
+  | n + 1 => .add first :: churnOps (first + 1) n
+
+def rankOps (ws : List String) : Option (List RankOp) :=
+  match ws with
+  | ["add", p] => some [.add (nat! p)]
+  | ["reward", p] => some [.reward (nat! p)]
+  | ["punish", p] => some [.punish (nat! p)]
+  | ["reset", p] => some [.reset (nat! p)]
+  | ["churn", first, n] => some (churnOps (nat! first) (nat! n))
+  | _ => none
+
+/-- cases of kind `rank`: the stock ranking on its own -/
+def runRank (c : CaseIn) : Array String := Id.run do
+  let mut out : Array String := #[]
+  let mut r : List (Nat × Nat) := []
+  let mut hist : List RankOp := []
+  let mut diverged := false
+  for (ln, line) in c.lines do
+    let (op, obs) := splitObs line
+    let ws := words op
+    if obs.startsWith "PANIC" then
+      out := out.push s!"ORACLE-FAIL C12 case {c.num} line {ln}: shape=panic the ranking panicked at: {op} ({obs})"
+      continue
+    match ws with
+    | "order" :: ps =>
+      let inp := ps.map (fun x => nat! x)
+      let res := (words obs).map (fun x => nat! x)
+      for (shape, msg) in (rankObsStep hist (.order inp res)).2 do
+        out := out.push s!"ORACLE-FAIL C12 case {c.num} line {ln}: shape={shape} {msg} (at: {op} => {obs})"
+      if !diverged && !(isPerm inp res && scoresAscending r res) then
+        out := out.push s!"DIFF C12 case {c.num} line {ln}: {op} impl=<{obs}> model scores=<{res.map (scoreOf r)}>"
+        diverged := true
+    | _ =>
+      match rankOps ws with
+      | none =>
+        out := out.push s!"DIFF C12 case {c.num} line {ln}: unparsable op <{op}>"
+        diverged := true
+      | some ops =>
+        r := rankRun r ops
+        hist := hist ++ ops
+  return out
+
 def runCase : CaseFn := fun c => Id.run do
   if c.header.headD "" == "real" then return runReal c
+  if c.header.headD "" == "rank" then return runRank c
   let mut out : Array String := #[]
   let mut st : State := init
   let mut o : OSt := {}
